@@ -88,6 +88,10 @@ def make_bounds(rng, n, lbkind, ubkind, ub_wide=False):
         ub = ubv
     else:
         ubv = rng.uniform(0.5, 10, n) if rng.integers(4) else np.full(n, float(rng.uniform(0.5, 10)))
+        if int(ubv[0] * 1e6) % 8 == 0:
+            # integer-valued upper bounds (ub=[1, 2, 1, 3]): handed over as int64 by the harness.  Decided by the drawn
+            # values themselves, so that no other generated case changes
+            ubv = np.maximum(np.round(ubv), 1.0)
         ub = ubv
     if lbkind == "zero" or (ub_wide and ubkind != "inf" and np.min(ubv) < 0.2):
         lb = None if (rng.integers(2) and ubkind == "inf") else np.zeros(n)
@@ -248,8 +252,16 @@ def make_estimator(dreye, s, w=None, with_bounds=True):
         kw["baseline"] = s["baseline"]
     if w is not None:
         kw["w"] = w
-    est = dreye.ReceptorEstimator(filters, domain=1.0, **kw)
-    est.register_system(sources, lb=s["lb"] if with_bounds else None, ub=s["ub"] if with_bounds else None)
+    # sampling step of the spectra: a power of two chosen by a hash of A (sources divided by it, exactly), so that the
+    # registered capture matrix is still exactly s['A'] while the domain is not always the unit step
+    import zlib
+    dx = [1.0, 0.5, 2.0, 0.25][zlib.crc32(np.ascontiguousarray(np.asarray(s["A"], float)).tobytes()) % 4]
+    sources = sources / dx
+    est = dreye.ReceptorEstimator(filters, domain=dx, **kw)
+    # the bounds are hidden from c.call inside the system dict: give them the same value-hashed int64 container here
+    from .core import as_int_container
+    est.register_system(sources, lb=as_int_container(s["lb"]) if with_bounds else None,
+                        ub=as_int_container(s["ub"]) if with_bounds else None)
     return est
 
 
@@ -267,6 +279,12 @@ def est_query(c, est, method, B, attrs=None, registered=False, _where=None, use_
     if np.ndim(B) != 2:
         return est_query(c, est, method, B, attrs, False, _where, use_try, _raises_ok, **kw)
     c.cell("api=register_targets+" + method + "()")
+    import zlib
+    if zlib.crc32(np.ascontiguousarray(np.asarray(B, float)).tobytes()) % 2:
+        # other targets with per-sample weights were registered before: a new registration replaces both (W=None -> w)
+        c.cell("prior-targets-with-weights")
+        Bo = np.asarray(B, float)[::-1] * 1.1 + 0.3
+        c.call(est.register_targets, Bo, W=np.linspace(0.3, 3.0, Bo.size).reshape(Bo.shape), _where="register_targets (earlier)")
     c.call(est.register_targets, B, _where="register_targets")
     if use_try:
         ok, out = c.try_call(fn, **kw)
@@ -355,7 +373,8 @@ def reregister(rng, est, s, op=None, matrix_ok=True):
         bg[1:m + 1] = rng.uniform(0.2, 2.0, m) * float(np.mean(A)) * n
         bg[0], bg[-1] = rng.uniform(0, 1, 2)           # end samples do not overlap any filter
         est.register_background_adaptation(bg.copy())
-        t["K"], t["kkind"] = 1.0 / (bg[1:m + 1] + base), "vector"
+        dx = float(np.asarray(est.domain)) if np.ndim(est.domain) == 0 else 1.0     # scalar sampling step of make_estimator
+        t["K"], t["kkind"] = 1.0 / (bg[1:m + 1] * dx + base), "vector"
     return op, t
 
 
